@@ -156,6 +156,26 @@ Section CancelPrompt.
   Lemma good_Post x cs : good x cs -> Post cs.
   Proof. destruct x; cbn [good]; [apply Inv_Post|intros [H _]; exact H]. Qed.
 
+  (* the statement of promptness: whatever execute returns, and at whatever nesting depth the
+     context was (or gets) cancelled, no more than checkContextOps - 1 instructions have been
+     executed after the moment of cancellation; checkContext's error means the context is done *)
+  Theorem run_ctx_prompt k C ip stk m cs x cs' :
+    Inv cs -> run_ctx k C ip stk m cs = (x, cs') ->
+    (forall t, done_at cs' = Some t -> clock cs' <= t + checkContextOps - 1) /\
+    clock cs <= clock cs' /\
+    (forall t, done_at cs = Some t -> done_at cs' = Some t) /\
+    (forall m', x = CCtx m' -> closed cs' = true) /\
+    (forall r, x = CRes r -> Inv cs').
+  Proof.
+    intros HI H. destruct (run_ctx_inv _ _ _ _ _ _ _ _ HI H) as (Hg & Hc & Hd & _).
+    split; [|split; [|split; [|split]]].
+    - apply (good_Post _ _ Hg).
+    - exact Hc.
+    - exact Hd.
+    - intros m' E. subst x. destruct Hg as [_ Hcl]. exact Hcl.
+    - intros r0 E. subst x. exact Hg.
+  Qed.
+
   (* ---- the call returns ---- *)
 
   Lemma step_not_fuel C ip stk (m : mstate) : step C ip stk m <> AStop VFuel.
